@@ -111,7 +111,7 @@ def finding_layouts():
 
 def pname(prefix, p):
     return "%s-%s-i%d-c%d-n%d.%d-m%d-b%d-x%d-p%d%d%s%s" % (prefix, STYLES[p["style"]], p["ind"], p["cind"], p["n1"], p["n2"], p["cmt"], p["brk"], p["xi"],
-                                                      p["pre"], p["post"], ("-lab%d" % p["lab"]) if "lab" in p else "", "-F" if p["findings"] else "")
+                                                      p["pre"], p["post"], ("-lab%d-o%d%d" % (p["lab"], p["offl"], p["offc"])) if "lab" in p else "", "-F" if p["findings"] else "")
 
 
 def diags_jobs(tier):
@@ -127,8 +127,10 @@ def parser_jobs(tier):
         for lab in ([0, 2] if tier == "quick" else [0, 1, 3]):
             if p["findings"] and lab:
                 continue
-            q = dict(p, lab=lab)
-            out.append({"name": pname("rule", q), "func": "VerifHarness_ParseRule", "params": q, "unwind": 400, "reach": ["end"]})
+            one = (tier == "quick" and (lab or p["cmt"])) or p["findings"]
+            for (offl, offc) in ([(0, 0)] if one else [(0, 0), (2, 3)]):
+                q = dict(p, lab=lab, offl=offl, offc=offc)
+                out.append({"name": pname("rule", q), "func": "VerifHarness_ParseRule", "params": q, "unwind": 400, "reach": ["end"]})
     return out
 
 
@@ -143,7 +145,7 @@ PROP = {
         "L1 read-back": "quick: 2 lines of <= 4 bytes with values of 0..3 bytes (every Line/Column/minColumn for <= 2 bytes, every 3rd for 3), 3 lines 3/0/3 and 3/3/3 (subset); thorough: 2x5 bytes with values 0..4, 3x4 with values 3..4, samples of 6/5/6 and 7/6",
         "L2 readRange": "<= 3 (thorough 4) ranges of width <= 3 (4), lines and columns symbolic in 1..9, first/last symbolic, offsets 0..9",
         "L3 layouts": "9 styles x key indent {0,2,3} (thorough 0..3) x continuation indent {2,3} (thorough 2..4) x trailing comment of 0/2 bytes (thorough 0/1/3) x value on key line / next line x with/without sibling fields x literal blocks with a more-indented second line; content lines of 4 and 3 bytes (thorough also 1/1 and 6/5)",
-        "parser run": "alert rule with the generated expr field, optional for: and a one-entry labels map with a 2-byte symbolic value; line and column offsets symbolic in 0..3",
+        "parser run": "alert rule with the generated expr field, optional for: and a one-entry labels map with a 2-byte symbolic value; line/column offsets (0,0) and (2,3)",
         "alphabet": "first byte of a content line: a-z except t f n y o, '_' '(' (block scalars also '-' '+'); other bytes: a-z 0-9 _ ( ) + - * / . = < ~ and space (not at the end of a line); quoted styles: the same plus leading/trailing spaces; comment bytes additionally '#'. L1/L2 bytes: any ASCII except newline.",
     },
     "assumptions": [
